@@ -18,6 +18,7 @@ BINARY_LANG = {
     "get_intersection": "(ref_intersection {A} {B})",
     "get_difference": "(ref_difference {A} {B})",
 }
+RATIONAL = {"union": "(fa_union {A} {B})", "concatenate": "(fa_concat {A} {B})", "kleene_star": "(fa_star {A})"}
 OPERATOR_FORM = {"get_intersection": "and", "get_difference": "sub", "get_complement": "neg", "reverse": "invert"}
 QUERIES = {"is_empty": "is_empty {A}", "is_deterministic": "is_deterministic {A}", "is_acyclic": "is_acyclic {A}"}
 
@@ -27,8 +28,74 @@ def words_of(case):
     return falib.words_upto(syms, case.get("maxlen", 3))
 
 
+def history_snapshots(case):
+    """Replays the edit steps of an edit_history case on plain sets; returns the spec at each query."""
+    spec = {k: (list(v) if isinstance(v, list) else v) for k, v in case["fa"].items()}
+    spec["trans"] = [list(t) for t in spec["trans"]]
+    snaps = []
+    for st in case["steps"]:
+        k = st[0]
+        if k == "add":
+            if st[1:] not in spec["trans"]:
+                spec["trans"].append(st[1:])
+            for q in (st[1], st[3]):
+                if q not in spec["states"]:
+                    spec["states"].append(q)
+            if st[2] is not None and st[2] not in spec["symbols"]:
+                spec["symbols"].append(st[2])
+        elif k == "rem":
+            spec["trans"] = [t for t in spec["trans"] if t != st[1:]]
+        elif k == "start+":
+            if st[1] not in spec["starts"]:
+                spec["starts"].append(st[1])
+        elif k == "final+":
+            if st[1] not in spec["finals"]:
+                spec["finals"].append(st[1])
+        elif k == "final-":
+            spec["finals"] = [x for x in spec["finals"] if x != st[1]]
+        elif k == "start-":
+            spec["starts"] = [x for x in spec["starts"] if x != st[1]]
+        elif k == "query":
+            snaps.append({kk: (list(v) if isinstance(v, list) else v) for kk, v in spec.items()})
+    return snaps
+
+
+def history_words(case):
+    return falib.words_upto(["a", "b"], case.get("maxlen", 3))
+
+
+def impl_history(case):
+    from pyformlang.finite_automaton import State, Symbol, Epsilon
+    fa = falib.build_fa(case["fa"])
+    lab = lambda a: Epsilon() if a is None else Symbol(a)
+    out = []
+    ws = history_words(case)
+    for st in case["steps"]:
+        k = st[0]
+        if k == "add":
+            fa.add_transition(State(st[1]), lab(st[2]), State(st[3]))
+        elif k == "rem":
+            fa.remove_transition(State(st[1]), lab(st[2]), State(st[3]))
+        elif k == "start+":
+            fa.add_start_state(State(st[1]))
+        elif k == "start-":
+            fa.remove_start_state(State(st[1]))
+        elif k == "final+":
+            fa.add_final_state(State(st[1]))
+        elif k == "final-":
+            fa.remove_final_state(State(st[1]))
+        elif k == "query":
+            q = {"bits": [bool(fa.accepts(w)) for w in ws], "empty": bool(fa.is_empty()),
+                 "det": falib.extract_fa(fa.to_deterministic()), "noeps": falib.extract_fa(fa.remove_epsilon_transitions()),
+                 "isdet": bool(fa.is_deterministic())}
+            out.append(q)
+    return {"queries": out}
+
+
 def impl_case(case):
     op = case["op"]
+    if op == "edit_history":
+        return impl_history(case)
     fa = falib.build_fa(case["fa"])
     if op == "accepts":
         return {"bits": [bool(fa.accepts(w)) for w in words_of(case)]}
@@ -52,6 +119,13 @@ def impl_case(case):
         return {"out": falib.extract_fa(res), "operands_unchanged": before == after}
     if op in QUERIES:
         return {"bool": bool(getattr(fa, op)())}
+    if op == "to_regex":
+        return {"tree": regex_tree(fa.to_regex())}
+    if op in RATIONAL:
+        if op == "kleene_star":
+            return {"out": falib.extract_fa(fa.kleene_star())}
+        fb = falib.build_fa(case["fb"]) if not case.get("same_object") else fa
+        return {"out": falib.extract_fa(getattr(fa, op)(fb))}
     if op == "get_accepted_words":
         ws = [[falib._val(x) for x in w] for w in fa.get_accepted_words(case["n"])]
         return {"words": ws}
@@ -64,6 +138,48 @@ def impl_case(case):
         fb = falib.build_fa(case["fb"])
         return {"bool": bool(fa.is_equivalent_to(fb)) if op == "is_equivalent_to" else bool(fa == fb)}
     raise ValueError(op)
+
+
+def regex_tree(rx):
+    """Read a pyformlang Regex object back as a nested list through its public head/sons attributes."""
+    name = type(rx.head).__name__
+    sons = [regex_tree(s) for s in (rx.sons or [])]
+    if name == "Symbol":
+        return ["sym", falib._val(rx.head)]
+    if name == "Epsilon":
+        return ["eps"]
+    if name == "Empty":
+        return ["empty"]
+    if name == "Concatenation":
+        return ["cat"] + sons
+    if name == "Union":
+        return ["alt"] + sons
+    if name == "KleeneStar":
+        return ["star"] + sons
+    return ["unknown:" + name] + sons
+
+
+def coq_re(tree, sym_int):
+    k = tree[0]
+    if k == "sym":
+        return "(RSym %d)" % sym_int(tree[1])
+    if k == "eps":
+        return "REps"
+    if k == "empty":
+        return "REmpty"
+    if k in ("cat", "alt"):
+        c = "RCat" if k == "cat" else "RAlt"
+        if len(tree) < 3:
+            raise ValueError("operator with %d sons" % (len(tree) - 1))
+        acc = coq_re(tree[-1], sym_int)
+        for t in reversed(tree[1:-1]):
+            acc = "(%s %s %s)" % (c, coq_re(t, sym_int), acc)
+        return acc
+    if k == "star":
+        if len(tree) == 2:
+            return "(RStar %s)" % coq_re(tree[1], sym_int)
+        raise ValueError("star with %d sons" % (len(tree) - 1))
+    raise ValueError(k)
 
 
 def dfa_isomorphic(xa, xb):
@@ -102,6 +218,16 @@ def coq_expr(case, obs):
     """Coq expression (type depends on op) for one case, or None when there is nothing to evaluate."""
     op = case["op"]
     si = falib.Interner()
+    if op == "edit_history":
+        if "queries" not in obs:
+            return None
+        items = []
+        ws = cq([[si(a) for a in w] for w in history_words(case)])
+        for snap, q in zip(history_snapshots(case), obs["queries"]):
+            A = falib.coq_enfa(snap, si)
+            items.append("(map (accepts %s) %s, is_empty %s, is_deterministic %s, judge %s %s, judge %s %s)" % (
+                A, ws, A, A, A, falib.coq_enfa(q["det"], si), A, falib.coq_enfa(q["noeps"], si)))
+        return "[" + "; ".join(items) + "]"
     A = falib.coq_enfa(case["fa"], si)
     if op == "accepts":
         ws = cq([[si(a) for a in w] for w in words_of(case)])
@@ -122,6 +248,16 @@ def coq_expr(case, obs):
         return "(judge_opt %s %s, true)" % (BINARY_LANG[op].format(A=A, B=B), R)
     if op in QUERIES:
         return QUERIES[op].format(A=A)
+    if op == "to_regex":
+        if "tree" not in obs:
+            return None
+        return "(judge_re %s %s 60%%nat 5%%nat, true)" % (A, coq_re(obs["tree"], si))
+    if op in RATIONAL:
+        if "out" not in obs:
+            return None
+        B = A if (case.get("same_object") or "fb" not in case) else falib.coq_enfa(case["fb"], si)
+        R = falib.coq_enfa(obs["out"], si)
+        return "(judge %s %s, true)" % (RATIONAL[op].format(A=A, B=B), R)
     if op == "get_accepted_words":
         n = case["n"]
         return "(accepted_words FUEL %s %s)" % (A, "None" if n is None else "(Some %d%%nat)" % n)
@@ -147,6 +283,25 @@ def judge_case(ctx, case, obs, mv):
     if "exc" in obs:
         ctx.fail(op + "-exception", case, {"impl": obs})
         return
+    if op == "edit_history":
+        ctx.count(len(mv))
+        for i, (m, q) in enumerate(zip(mv, obs["queries"])):
+            bits, emp, isdet, jd, jn = m
+            bad = None
+            if bits != q["bits"]:
+                bad = "accepts"
+            elif emp != q["empty"]:
+                bad = "is_empty"
+            elif isdet != q["isdet"]:
+                bad = "is_deterministic"
+            elif jd not in ("VEq", "VFuel"):
+                bad = "to_deterministic"
+            elif jn not in ("VEq", "VFuel"):
+                bad = "remove_epsilon_transitions"
+            if bad:
+                ctx.fail("history-" + bad, case, {"query_index": i, "hashseed": obs.get("_hs")})
+                return
+        return
     if op == "accepts":
         ref, cls = mv
         if ref != cls:
@@ -158,14 +313,17 @@ def judge_case(ctx, case, obs, mv):
             ctx.fail("accepts", case, {"words": bad[:3], "hashseed": obs.get("_hs")})
         return
     ctx.count(1)
-    if op in UNARY_LANG or op in BINARY_LANG:
+    if op in UNARY_LANG or op in BINARY_LANG or op in RATIONAL or op == "to_regex":
         verdict, shape = mv
         if verdict == "VFuel":
             ctx.notes.append("fuel exhausted on a %s case (skipped)" % op)
             return
+        if isinstance(verdict, tuple) and verdict[0] == "VEqBounded":
+            ctx.dist["bounded-comparison"] += 1
+            verdict = "VEq"
         if verdict != "VEq":
             w = verdict[1] if isinstance(verdict, tuple) else None
-            ctx.fail(op + "-language", case, {"distinguishing_word_interned": w, "impl_out": obs["out"], "hashseed": obs.get("_hs")})
+            ctx.fail(op + "-language", case, {"distinguishing_word_interned": w, "impl_out": obs.get("out", obs.get("tree")), "hashseed": obs.get("_hs")})
         elif shape is not True:
             ctx.fail(op + "-shape", case, {"impl_out": obs["out"]})
         elif obs.get("isdet") is False:
@@ -247,8 +405,47 @@ def check_cases(ctx, module, cases, extra_judge=None):
             extra_judge(ctx, c, obs[i], mvs[i])
 
 
+def rand_history(rng, nsteps=None):
+    """Edit stream on a small epsilon-NFA, biased to epsilon edges, with a query after every edit."""
+    states = falib.PLAIN_STATES[:rng.randint(2, 4)]
+    base = falib.rand_fa(rng, kind="enfa", names="plain", max_states=len(states), max_syms=2)
+    base["symbols"] = ["a", "b"]
+    base["states"] = list(states)
+    base["trans"] = [t for t in base["trans"] if t[0] in states and t[2] in states]
+    base["starts"] = [x for x in base["starts"] if x in states] or [states[0]]
+    base["finals"] = [x for x in base["finals"] if x in states]
+    steps = [["query"]]
+    cur = [list(t) for t in base["trans"]]
+    for _ in range(nsteps or rng.randint(3, 8)):
+        r = rng.random()
+        if r < 0.55:
+            t = [rng.choice(states), rng.choice([None, None, "a", "b"]), rng.choice(states)]
+            steps.append(["add"] + t)
+            if t not in cur:
+                cur.append(t)
+        elif r < 0.8 and cur:
+            t = rng.choice(cur)
+            steps.append(["rem"] + t)
+            cur = [x for x in cur if x != t]
+        elif r < 0.9:
+            steps.append([rng.choice(["final+", "final-"]), rng.choice(states)])
+        else:
+            steps.append([rng.choice(["start+", "start-"]), rng.choice(states)])
+        steps.append(["query"])
+    return {"op": "edit_history", "fa": base, "steps": steps, "maxlen": 3}
+
+
 def shrink_candidates(case):
     """Smaller variants of a case: drop one transition / state / start / final, shorten words."""
+    if case["op"] == "edit_history":
+        st = case["steps"]
+        for i in range(len(st)):
+            if st[i][0] != "query":
+                yield dict(case, steps=st[:i] + st[i + 1:])
+        for i in range(len(st)):
+            if st[i][0] == "query" and i != len(st) - 1:
+                yield dict(case, steps=st[:i] + st[i + 1:])
+        return
     for key in ("fa", "fb"):
         if key not in case:
             continue
